@@ -223,7 +223,7 @@ class SystemSuite:
     shard = 8
     classify = True
     tol = Fraction(1, 10 ** 6)
-    min_margin = Fraction(1, 10 ** 5)
+    min_margin = Fraction(1, 10 ** 8)
     fuel = 20000
 
     def cases(self, rng, tier):
@@ -300,3 +300,102 @@ class RandomSessionSuite(SystemSuite):
     def scenarios(self, rng, tier):
         for _ in range(150 if tier == "quick" else 1500):
             yield random_session(rng)
+
+
+# ----------------------------------------------------------------------------- sessions with the real rhythms
+def blow_interval(peal_minutes, n):
+    return Fraction(peal_minutes) * 60 / 2520 / (2 * n + 1)
+
+
+def probe_rows(spec, n, nrows, udi=True, go_row=None, custom_events=()):
+    """Rows (lists of bell numbers) Wheatley will ring when it owns every bell: obtained by running
+    the implementation once under the scripted rhythm.  Used only to script the simulated humans."""
+    dur = Fraction(1, 8)
+    look_to = Fraction(151, 1000)
+    sch = Schedule(look_to, dur)
+    events = [ev(0, "global", [True] * n), ev(look_to, "call", "Look to")]
+    if go_row is not None:
+        events.append(ev(sch.wait(go_row * n, Fraction(1, 3)), "call", "Go"))
+    events += list(custom_events)
+    sc = {"gen": spec, "udi": udi, "stop_at_rounds": False, "call_comps": False, "name": None, "instance": None,
+          "rhythm": {"kind": "scripted", "durs": [fstr(dur)] * (nrows * n + 5)}, "delta": "0",
+          "horizon": fstr(sch.end_of(nrows * n) + Fraction(1, 3000)), "events": sorted_events(events)}
+    out = sim.run_scenario(sc, gens.build_impl_generator)
+    rows = []
+    for it in out.get("trace", []):
+        if it[1] == "r_wait":
+            bell, row, place = it[3], it[4], it[5]
+            while len(rows) <= row:
+                rows.append([])
+            rows[row].append(bell)
+    return [r for r in rows if len(r) == n]
+
+
+def human_events(rng, rows, humans, n, start, interval, gap, *, ratio=1.0, offset=0.0, jitter=0.0, uid=11,
+                 late=None, skip_prob=0.0, double_prob=0.0):
+    """Strikes of the human-held bells on their own steady line (open loop)."""
+    evs = []
+    hi = Fraction(interval) * Fraction(ratio)
+    for r, row in enumerate(rows):
+        for p, bell in enumerate(row):
+            if bell not in humans:
+                continue
+            if rng.random() < skip_prob:
+                continue
+            blow = r * n + p + (r // 2) * Fraction(gap)
+            t = Fraction(start) + Fraction(offset) + hi * blow
+            if jitter:
+                t += Fraction(rng.uniform(-jitter, jitter)) * hi
+            if late and (r, p) in late:
+                t += Fraction(late[(r, p)])
+            t += Fraction(rng.randint(1, 999), 10 ** 7)   # keep off every grid
+            evs.append(ev(t, "ring", bell))
+            if rng.random() < double_prob:
+                evs.append(ev(t + hi / 3, "ring", bell))
+    return evs
+
+
+def rhythm_session(rng, kind, *, n=None, nrows=None):
+    n = n or rng.choice([4, 5, 6, 8, 8, 10, 12])
+    stage = n - rng.choice([0, 0, 1]) if n > 4 else n
+    spec = rng.choice([
+        {"kind": "plain_hunt", "stage": stage, "custom": None},
+        {"kind": "pn", "stage": stage, "method": rng.choice(["x1", "x1x1,2", "3,1." + gens.BELL_NAMES[stage - 1]]) if stage % 2 == 0 else "3.1",
+         "bob": None, "single": None, "start_index": 0, "custom": None},
+    ])
+    nrows = nrows or rng.choice([4, 6, 10, 16])
+    rows = probe_rows(spec, n, nrows)
+    humans = set(rng.sample(range(1, n + 1), rng.randint(0, n - 1)))
+    peal = rng.choice([150, 178, 180, 200, 240])
+    gap = rng.choice([1.0, 1.0, 0.0, 0.5, 2.0])
+    look_to = Fraction(rng.randint(15, 60), 100) + Fraction(1, 1000)
+    iv = blow_interval(peal, n)
+    start = look_to + 3
+    evs = [ev(0, "global", [True] * n), ev(Fraction(3, 100), "user_entered", 11, "Alice")]
+    for b in sorted(humans):
+        evs.append(ev(Fraction(5, 100) + Fraction(b, 10000), "assign", b, 11))
+    evs.append(ev(look_to, "call", "Look to"))
+    late = {}
+    if kind == "wait" and rng.random() < 0.5 and humans:
+        r = rng.randrange(len(rows))
+        hp = [p for p, b in enumerate(rows[r]) if b in humans]
+        if hp:
+            late[(r, rng.choice(hp))] = Fraction(rng.choice([3, 13, 250, 1200]), 1000) + Fraction(1, 7919)
+    evs += human_events(rng, rows, humans, n, start, iv, gap, ratio=rng.choice([1.0, 1.0, 0.97, 1.04]),
+                        offset=rng.choice([0.0, 0.0, 0.05, -0.03]), jitter=rng.choice([0.0, 0.1, 0.3]),
+                        late=late, skip_prob=rng.choice([0, 0, 0.02]), double_prob=rng.choice([0, 0, 0.03]))
+    horizon = start + iv * (nrows * n + nrows // 2 * Fraction(gap)) + Fraction(1, 3000)
+    rh = {"kind": kind, "inertia": rng.choice([0.0, 0.3, 0.5, 0.5, 1.0]), "peal_speed": peal, "gap": gap,
+          "max": rng.choice([15, 15, 8, 30]), "initial_inertia": 0}
+    return {"gen": spec, "udi": True, "stop_at_rounds": False, "call_comps": True, "name": None, "instance": None,
+            "rhythm": rh, "delta": fstr(rng.choice([0, Fraction(1, 1000), Fraction(3, 100)])), "horizon": fstr(horizon),
+            "events": sorted_events(evs)}
+
+
+class RhythmSessionSuite(SystemSuite):
+    name = "rhythm_sessions"
+    fuel = 60000
+
+    def scenarios(self, rng, tier):
+        for i in range(60 if tier == "quick" else 600):
+            yield rhythm_session(rng, "regression" if i % 2 else "wait")
